@@ -48,6 +48,8 @@ func main() {
 		runOSProc(*nArg, *langArg, *seed)
 	case "overlap":
 		runOverlap(*tier, *seed)
+	case "cold":
+		runCold(*langArg, *seed, *nArg)
 	case "conc":
 		runConcFile(*arg, *seed)
 	case "prog":
